@@ -53,8 +53,11 @@ Benign     == {"alter_id", "alter_keycase"}
 
 Faults(L) == { [kind |-> k, pos |-> p] : k \in SignKinds \cup OctetKinds \cup {"drop", "dup"}, p \in 1..L }
              \cup { [kind |-> "swap", pos |-> p] : p \in 1..(L - 1) }
-FaultSets(L) == { F \in SUBSET Faults(L) : Cardinality(F) <= MaxFaults
-                                            /\ Cardinality({f \in F : f.kind \in SeqKinds}) <= 1 }
+FaultSets(L) ==      \* built by size: SUBSET Faults(L) has 2^55 elements
+  LET one == { {f} : f \in Faults(L) }
+      two == { {f, g} : f \in Faults(L), g \in Faults(L) } IN
+  { F \in (IF MaxFaults >= 2 THEN {{}} \cup one \cup two ELSE IF MaxFaults = 1 THEN {{}} \cup one ELSE {{}}) :
+      Cardinality({f \in F : f.kind \in SeqKinds}) <= 1 }
 Has(F, k, p) == [kind |-> k, pos |-> p] \in F
 
 -----------------------------------------------------------------------------
